@@ -43,10 +43,10 @@ mod v_socket_udp {
     }
 
     // ---------------------------------------------------------------- symbolic addresses
-    fn any_addr() -> IpAddress {
+    fn any_addr(v6: bool) -> IpAddress {
         #[cfg(feature = "proto-ipv6")]
         {
-            if kani::any() {
+            if v6 && kani::any() {
                 let a: u16 = kani::any();
                 let b: u16 = kani::any();
                 return IpAddress::Ipv6(Ipv6Address::new(a, 0, 0, 0, 0, 0, 0, b));
@@ -56,12 +56,12 @@ mod v_socket_udp {
         IpAddress::Ipv4(Ipv4Address::new(o[0], o[1], o[2], o[3]))
     }
 
-    fn any_ep() -> IpEndpoint {
-        IpEndpoint { addr: any_addr(), port: kani::any() }
+    fn any_ep(v6: bool) -> IpEndpoint {
+        IpEndpoint { addr: any_addr(v6), port: kani::any() }
     }
 
-    fn any_opt_addr() -> Option<IpAddress> {
-        if kani::any() { Some(any_addr()) } else { None }
+    fn any_opt_addr(v6: bool) -> Option<IpAddress> {
+        if kani::any() { Some(any_addr(v6)) } else { None }
     }
 
     fn is_v4(a: &IpAddress) -> bool {
@@ -193,8 +193,8 @@ mod v_socket_udp {
     }
 
     /// bind to a symbolic endpoint with a non-zero port (address: none, IPv4 or IPv6)
-    fn bind_any(s: &mut Socket<'_>) -> IpListenEndpoint {
-        let ep = IpListenEndpoint { addr: any_opt_addr(), port: kani::any() };
+    fn bind_any(s: &mut Socket<'_>, v6: bool) -> IpListenEndpoint {
+        let ep = IpListenEndpoint { addr: any_opt_addr(v6), port: kani::any() };
         kani::assume(ep.port != 0);
         assert!(s.bind(ep).is_ok(), "prop:c09_udp_bind_fresh_socket");
         ep
@@ -213,13 +213,13 @@ mod v_socket_udp {
 
     // ---------------------------------------------------------------- transmit side
     /// one symbolic public-API step on the transmit side
-    fn tx_prefix_step(s: &mut Socket<'_>, cx: &mut Context, g: &mut Ghost, bound: &IpListenEndpoint) {
+    fn tx_prefix_step(s: &mut Socket<'_>, cx: &mut Context, g: &mut Ghost, bound: &IpListenEndpoint, v6: bool) {
         let k: u8 = kani::any();
         if k <= 1 {
             let size = any_le(PL);
             let tag: u8 = kani::any();
-            let ep = any_ep();
-            let local = any_opt_addr();
+            let ep = any_ep(v6);
+            let local = any_opt_addr(v6);
             kani::assume(version_ok(bound, &ep.addr, &local));
             if k == 0 {
                 let data = pattern(tag);
@@ -322,27 +322,28 @@ mod v_socket_udp {
     }
 
     macro_rules! tx_setup {
-        ($dev:ident, $iface:ident, $cx:ident, $s:ident, $g:ident, $bound:ident, $hop:ident) => {
+        ($dev:ident, $iface:ident, $cx:ident, $s:ident, $g:ident, $bound:ident, $hop:ident, $mc:expr, $pc:expr, $v6:expr) => {
             env!($dev, $iface, $cx);
-            sock!($s, 1, 0, any_slots(), any_le(PC));
-            let $bound = bind_any(&mut $s);
+            sock!($s, 1, 0, $mc, $pc);
+            let $bound = bind_any(&mut $s, $v6);
             let $hop = any_hop(&mut $s);
             let mut $g = Ghost::new();
-            tx_prefix_step(&mut $s, $cx, &mut $g, &$bound);
-            tx_prefix_step(&mut $s, $cx, &mut $g, &$bound);
-            tx_prefix_step(&mut $s, $cx, &mut $g, &$bound);
+            tx_prefix_step(&mut $s, $cx, &mut $g, &$bound, $v6);
+            tx_prefix_step(&mut $s, $cx, &mut $g, &$bound, $v6);
+            tx_prefix_step(&mut $s, $cx, &mut $g, &$bound, $v6);
         };
     }
 
     // @harness props=C09 cfg=KG tier=q to=900 mem=8 unwind=11 opts=nomem covers=4 funcs=udp::Socket::send;udp::Socket::send_slice;udp::Socket::dispatch;PacketBuffer::enqueue;PacketBuffer::dequeue_with bounds=tx_metadata_slots_1..=3;_payload_ring_0..=8;_pre-state_=_3_symbolic_send_slice/send_with/dispatch_steps_(size<=6);_datagram_under_test_0..=9_bytes;_endpoints_IPv4_(any)_or_IPv6_(2_symbolic_groups);_one_interface_address
     #[kani::proof]
     pub(crate) fn udp_send() {
-        tx_setup!(dev, iface, cx, s, g, bound, hop);
+        let v6 = true;
+        tx_setup!(dev, iface, cx, s, g, bound, hop, any_slots(), any_le(PC), v6);
         let before = g.count();
         let size = any_le(DL);
         let tag: u8 = kani::any();
-        let ep = any_ep();
-        let local = any_opt_addr();
+        let ep = any_ep(v6);
+        let local = any_opt_addr(v6);
         kani::assume(version_ok(&bound, &ep.addr, &local));
         let pcap = s.payload_send_capacity();
         let mcap = s.packet_send_capacity();
@@ -381,14 +382,15 @@ mod v_socket_udp {
     // @harness props=C09 cfg=KG tier=q to=900 mem=8 unwind=11 opts=nomem covers=3 funcs=udp::Socket::send_with;udp::Socket::dispatch;PacketBuffer::enqueue_with_infallible;PacketBuffer::dequeue_with bounds=tx_metadata_slots_1..=3;_payload_ring_0..=8;_pre-state_=_3_symbolic_send_slice/send_with/dispatch_steps_(size<=6);_max_size_0..=9,_written_size<=max_size;_endpoints_IPv4_or_IPv6
     #[kani::proof]
     pub(crate) fn udp_send_with() {
-        tx_setup!(dev, iface, cx, s, g, bound, hop);
+        let v6 = true;
+        tx_setup!(dev, iface, cx, s, g, bound, hop, any_slots(), any_le(PC), v6);
         let before = g.count();
         let max = any_le(DL);
         let take = any_le(DL);
         kani::assume(take <= max);
         let tag: u8 = kani::any();
-        let ep = any_ep();
-        let local = any_opt_addr();
+        let ep = any_ep(v6);
+        let local = any_opt_addr(v6);
         kani::assume(version_ok(&bound, &ep.addr, &local));
         let pcap = s.payload_send_capacity();
         let mcap = s.packet_send_capacity();
@@ -425,7 +427,30 @@ mod v_socket_udp {
     // @harness props=C09 cfg=KG tier=q to=900 mem=8 unwind=11 opts=nomem covers=4 funcs=udp::Socket::dispatch;PacketBuffer::dequeue_with bounds=tx_metadata_slots_1..=3;_payload_ring_0..=8;_pre-state_=_3_symbolic_send_slice/send_with/dispatch_steps_(size<=6);_emit_returns_Ok_or_Err;_endpoints_IPv4_or_IPv6
     #[kani::proof]
     pub(crate) fn udp_dispatch() {
-        tx_setup!(dev, iface, cx, s, g, bound, hop);
+        dispatch_body(any_slots(), any_le(PC), true);
+    }
+    // @harness props=C09 cfg=KG tier=q to=900 mem=8 unwind=17 opts=nomem covers=4
+    #[kani::proof]
+    pub(crate) fn x_a() {
+        dispatch_body(3, 8, false);
+    }
+    // @harness props=C09 cfg=KG tier=q to=900 mem=8 unwind=17 opts=nomem covers=4
+    #[kani::proof]
+    pub(crate) fn x_b() {
+        dispatch_body(any_slots(), 8, false);
+    }
+    // @harness props=C09 cfg=KG tier=q to=900 mem=8 unwind=17 opts=nomem covers=4
+    #[kani::proof]
+    pub(crate) fn x_c() {
+        dispatch_body(3, any_le(PC), false);
+    }
+    // @harness props=C09 cfg=KG tier=q to=900 mem=8 unwind=17 opts=nomem covers=4
+    #[kani::proof]
+    pub(crate) fn x_d() {
+        dispatch_body(3, 8, true);
+    }
+    fn dispatch_body(mc: usize, pc: usize, v6: bool) {
+        tx_setup!(dev, iface, cx, s, g, bound, hop, mc, pc, v6);
         let before = g.count();
         let head = g.q[0];
         let emit_ok: bool = kani::any();
@@ -451,15 +476,16 @@ mod v_socket_udp {
     // @harness props=C09,C13 cfg=KG tier=q to=900 mem=8 unwind=11 opts=nomem covers=3 funcs=udp::Socket::poll_at;udp::Socket::send_slice;udp::Socket::dispatch bounds=tx_metadata_slots_1..=3;_payload_ring_0..=8;_state_=_3_symbolic_steps_then_one_send_slice_(<=6)_and_one_dispatch;_poll_at_probed_after_each
     #[kani::proof]
     pub(crate) fn udp_poll_at() {
-        tx_setup!(dev, iface, cx, s, g, bound, hop);
+        let v6 = true;
+        tx_setup!(dev, iface, cx, s, g, bound, hop, any_slots(), any_le(PC), v6);
         let p0 = s.poll_at(cx);
         assert!((g.count() > 0) == (p0 == PollAt::Now), "prop:c13_udp_poll_at_now_iff_datagram_queued");
         assert!(p0 == PollAt::Now || p0 == PollAt::Ingress, "prop:c13_udp_poll_at_now_or_ingress");
         // one more (possibly refused) send and one dispatch: the refused-after-padding state is included
         let size = any_le(PL);
         let tag: u8 = kani::any();
-        let ep = any_ep();
-        let local = any_opt_addr();
+        let ep = any_ep(v6);
+        let local = any_opt_addr(v6);
         kani::assume(version_ok(&bound, &ep.addr, &local));
         let data = pattern(tag);
         let sent = s.send_slice(&data[..size], mk_meta(ep, local)).is_ok();
@@ -483,7 +509,7 @@ mod v_socket_udp {
 
     // ---------------------------------------------------------------- receive side
     /// a symbolic datagram for this socket: (ip_repr, udp_repr, tag, size) with `accepts` true
-    fn rx_prefix_step(s: &mut Socket<'_>, cx: &mut Context, g: &mut Ghost) {
+    fn rx_prefix_step(s: &mut Socket<'_>, cx: &mut Context, g: &mut Ghost, v6: bool) {
         let k: bool = kani::any();
         if k {
             // size > 0 only: acceptance is then visible in the byte count (a padding record alone is
@@ -491,8 +517,8 @@ mod v_socket_udp {
             let size = any_le(PL);
             kani::assume(size > 0);
             let tag: u8 = kani::any();
-            let src = any_ep();
-            let dst = any_addr();
+            let src = any_ep(v6);
+            let dst = any_addr(v6);
             kani::assume(is_v4(&src.addr) == is_v4(&dst));
             let udp = UdpRepr { src_port: src.port, dst_port: kani::any() };
             let ip = IpRepr::new(src.addr, dst, IpProtocol::Udp, 8 + size, 64);
@@ -545,26 +571,27 @@ mod v_socket_udp {
     }
 
     macro_rules! rx_setup {
-        ($dev:ident, $iface:ident, $cx:ident, $s:ident, $g:ident, $bound:ident) => {
+        ($dev:ident, $iface:ident, $cx:ident, $s:ident, $g:ident, $bound:ident, $mc:expr, $pc:expr, $v6:expr) => {
             env!($dev, $iface, $cx);
-            sock!($s, any_slots(), any_le(PC), 1, 0);
-            let $bound = bind_any(&mut $s);
+            sock!($s, $mc, $pc, 1, 0);
+            let $bound = bind_any(&mut $s, $v6);
             let mut $g = Ghost::new();
-            rx_prefix_step(&mut $s, $cx, &mut $g);
-            rx_prefix_step(&mut $s, $cx, &mut $g);
-            rx_prefix_step(&mut $s, $cx, &mut $g);
+            rx_prefix_step(&mut $s, $cx, &mut $g, $v6);
+            rx_prefix_step(&mut $s, $cx, &mut $g, $v6);
+            rx_prefix_step(&mut $s, $cx, &mut $g, $v6);
         };
     }
 
     // @harness props=C09 cfg=KG tier=q to=900 mem=8 unwind=11 opts=nomem covers=4 funcs=udp::Socket::process;udp::Socket::accepts;udp::Socket::recv;PacketBuffer::enqueue;PacketBuffer::dequeue bounds=rx_metadata_slots_1..=3;_payload_ring_0..=8;_pre-state_=_3_symbolic_process/recv_steps_(size_1..=6);_datagram_under_test_0..=9_bytes;_IPv4_(any)_or_IPv6_(2_symbolic_groups)_addresses
     #[kani::proof]
     pub(crate) fn udp_process_recv() {
-        rx_setup!(dev, iface, cx, s, g, bound);
+        let v6 = true;
+        rx_setup!(dev, iface, cx, s, g, bound, any_slots(), any_le(PC), v6);
         let before = g.count();
         let size = any_le(DL);
         let tag: u8 = kani::any();
-        let src = any_ep();
-        let dst = any_addr();
+        let src = any_ep(v6);
+        let dst = any_addr(v6);
         kani::assume(is_v4(&src.addr) == is_v4(&dst));
         let udp = UdpRepr { src_port: src.port, dst_port: kani::any() };
         let ip = IpRepr::new(src.addr, dst, IpProtocol::Udp, 8 + size, 64);
@@ -595,7 +622,8 @@ mod v_socket_udp {
     // @harness props=C09 cfg=KG tier=q to=900 mem=8 unwind=11 opts=nomem covers=3 funcs=udp::Socket::recv_slice;udp::Socket::recv;udp::Socket::process bounds=rx_metadata_slots_1..=3;_payload_ring_0..=8;_pre-state_=_3_symbolic_process/recv_steps_(size_1..=6);_user_buffer_0..=9_bytes
     #[kani::proof]
     pub(crate) fn udp_recv_truncated() {
-        rx_setup!(dev, iface, cx, s, g, bound);
+        let v6 = true;
+        rx_setup!(dev, iface, cx, s, g, bound, any_slots(), any_le(PC), v6);
         let head = g.q[0];
         let ulen = any_le(DL);
         let mut ubuf = [0xEEu8; DL];
@@ -625,7 +653,8 @@ mod v_socket_udp {
     // @harness props=C09 cfg=KG tier=q to=900 mem=8 unwind=11 opts=nomem covers=3 funcs=udp::Socket::peek;udp::Socket::peek_slice;udp::Socket::recv;PacketBuffer::peek bounds=rx_metadata_slots_1..=3;_payload_ring_0..=8;_pre-state_=_3_symbolic_process/recv_steps_(size_1..=6);_user_buffer_0..=9_bytes
     #[kani::proof]
     pub(crate) fn udp_peek() {
-        rx_setup!(dev, iface, cx, s, g, bound);
+        let v6 = true;
+        rx_setup!(dev, iface, cx, s, g, bound, any_slots(), any_le(PC), v6);
         let head = g.q[0];
         let via_slice: bool = kani::any();
         let ulen = any_le(DL);
@@ -671,17 +700,18 @@ mod v_socket_udp {
     // @harness props=C09 cfg=KG tier=q to=600 mem=8 unwind=11 opts=nomem covers=4 funcs=udp::Socket::accepts;udp::Socket::bind;udp::Socket::close;udp::Socket::is_open bounds=bound_endpoint_and_packet_addresses_IPv4_(any)_or_IPv6_(2_symbolic_groups);_any_ports;_close_after_2_tx_and_2_rx_steps
     #[kani::proof]
     pub(crate) fn udp_accepts_bind_close() {
+        let v6 = true;
         env!(dev, iface, cx);
         sock!(s, any_slots(), any_le(PC), any_slots(), any_le(PC));
         assert!(!s.is_open(), "prop:c09_udp_new_socket_closed");
-        let ep1 = IpListenEndpoint { addr: any_opt_addr(), port: kani::any() };
+        let ep1 = IpListenEndpoint { addr: any_opt_addr(v6), port: kani::any() };
         let r1 = s.bind(ep1);
         // documented: Unaddressable iff port zero; fresh socket otherwise binds
         assert!(r1 == if ep1.port == 0 { Err(BindError::Unaddressable) } else { Ok(()) }, "prop:c09_udp_bind_result_as_documented");
         assert!(s.is_open() == r1.is_ok(), "prop:c09_udp_open_iff_bound");
         // an unbound socket accepts nothing and sends nothing
-        let src = any_ep();
-        let dst = any_addr();
+        let src = any_ep(v6);
+        let dst = any_addr(v6);
         kani::assume(is_v4(&src.addr) == is_v4(&dst));
         let udp = UdpRepr { src_port: src.port, dst_port: kani::any() };
         let ip = IpRepr::new(src.addr, dst, IpProtocol::Udp, 8, 64);
@@ -699,7 +729,7 @@ mod v_socket_udp {
             assert!(acc == (udp.dst_port == ep1.port && addr_ok), "prop:c09_udp_accepts_iff_bound_endpoint_matches");
             assert!(s.endpoint() == ep1, "prop:c09_udp_bind_records_endpoint");
             // binding twice is an error and changes nothing
-            let ep2 = IpListenEndpoint { addr: any_opt_addr(), port: kani::any() };
+            let ep2 = IpListenEndpoint { addr: any_opt_addr(v6), port: kani::any() };
             let r2 = s.bind(ep2);
             assert!(r2 == if ep2.port == 0 { Err(BindError::Unaddressable) } else { Err(BindError::InvalidState) }, "prop:c09_udp_bind_twice_errors");
             assert!(s.endpoint() == ep1, "prop:c09_udp_failed_bind_keeps_endpoint");
@@ -711,11 +741,11 @@ mod v_socket_udp {
         let bound = s.endpoint();
         let mut gt = Ghost::new();
         let mut gr = Ghost::new();
-        tx_prefix_step(&mut s, cx, &mut gt, &bound);
-        tx_prefix_step(&mut s, cx, &mut gt, &bound);
+        tx_prefix_step(&mut s, cx, &mut gt, &bound, v6);
+        tx_prefix_step(&mut s, cx, &mut gt, &bound, v6);
         if r1.is_ok() {
-            rx_prefix_step(&mut s, cx, &mut gr);
-            rx_prefix_step(&mut s, cx, &mut gr);
+            rx_prefix_step(&mut s, cx, &mut gr, v6);
+            rx_prefix_step(&mut s, cx, &mut gr, v6);
         }
         kani::cover!(gt.count() == 2 && gr.count() >= 1, "closed with datagrams queued both ways");
         s.close();
@@ -745,12 +775,13 @@ mod v_socket_udp {
     #[cfg(feature = "proto-ipv6")]
     #[kani::proof]
     pub(crate) fn udp_version_mismatch() {
+        let v6 = true;
         env!(dev, iface, cx);
         sock!(s, 1, 0, 2, PC);
-        let bound = bind_any(&mut s);
+        let bound = bind_any(&mut s, v6);
         let size = any_le(PL);
-        let ep = any_ep();
-        let local = any_opt_addr();
+        let ep = any_ep(v6);
+        let local = any_opt_addr(v6);
         kani::assume(!version_ok(&bound, &ep.addr, &local));
         let data = pattern(1);
         let sent = s.send_slice(&data[..size], mk_meta(ep, local)).is_ok();
@@ -768,7 +799,8 @@ mod v_socket_udp {
     // @harness props=C09 kind=mustfail cfg=KG tier=q to=600 mem=8 unwind=11 opts=nomem
     #[kani::proof]
     pub(crate) fn udp_must_fail() {
-        tx_setup!(dev, iface, cx, s, g, bound, hop);
+        let v6 = true;
+        tx_setup!(dev, iface, cx, s, g, bound, hop, any_slots(), any_le(PC), v6);
         let head = g.q[0];
         let (o, r) = dispatch_recording(&mut s, cx, &head, &bound, hop, false);
         // false: a failed emit does NOT remove the head
